@@ -92,6 +92,27 @@ CLAIMED.update({
     },
 })
 
+CLAIMED.update({
+    "C13": {
+        "text": "Coq theorems about a model of StripInput (fold.rs) over items abstracted to positioned attributes plus an opaque remainder: erasing attributes commutes with stripping (nothing but attributes changes); at item and method level exactly the framework's own attributes (two-segment sv:: paths recognised by the regenerated table) are removed, order kept; parameter attributes are removed on handler methods and only there (helper methods are returned unchanged); stripping is idempotent. Tie: every item annotated with contract/interface/entry_points in sylvia/tests, sylvia/src and examples (located with syn) and generated decorated impl blocks/traits are expanded by the real macro and the re-emitted item is compared token for token outside attributes and attribute by attribute; determinism: each input expanded twice in one process and again in other processes (output hash).",
+        "note": COMMON_NOTE + "Partial: determinism of the real macro process cannot be a theorem about a Gallina function; it is decided by the correspondence runs only. A trailing comma of a handler's parameter list is treated as punctuation.",
+        "technique": "Coq proof (algebraic laws of the stripping model over a regenerated attribute table) + L1 differential correspondence on repository sources and generated inputs",
+        "design_ref": "DESIGN.md section 5 / C13",
+    },
+    "C15": {
+        "text": "Coq theorems about the generic-usage visitor and filter_wheres as modelled from MsgVariants::new: a parameter is carried by the message type of kind k iff it is declared and occurs (directly or nested at any depth) in an argument type, or for queries the response type, of a handler of kind k; each once; used ++ unused is a permutation of the declared parameters; a where-predicate is kept iff every parameter it mentions is used; the generated type and its dispatch function use exactly these lists. Tie: L1 generic parameter lists, where clauses and dispatch parameters of real expansions vs model and vs occurrence computed from the signature; L2 generic corpus programs instantiated at concrete types and driven through encode/decode/dispatch.",
+        "note": COMMON_NOTE + "`T::Assoc` does not count as an occurrence of T; bounds must be in the where clause (inline bounds do not compile with the macro): domain restrictions stated in DESIGN.",
+        "technique": "Coq proof (induction over the visitor fold) + L1/L2 differential correspondence",
+        "design_ref": "DESIGN.md section 5 / C15",
+    },
+    "C17": {
+        "text": "Coq theorems through the real attribute-parsing fold (parse_attrs over the regenerated attribute and kind tables): the generated type of kind k carries exactly the sv::msg_attr contents forwarded to k, in order, and no other kind's; a variant carries exactly the sv::attr contents of its own handler; a field carries the attributes written on its argument; the serde(default) marker of a field description is that attribute, a missing field without it is rejected and with it takes the default. Tie: L1 attribute lists of every generated type/variant/field vs model and program; L2 documents lacking one field accepted iff default or Option.",
+        "note": COMMON_NOTE + "Only serde(default) is given a semantics in the model; other forwarded attributes are checked for placement (L1) not effect.",
+        "technique": "Coq proof (per-attribute contribution lemma through the parsing fold) + L1/L2 differential correspondence",
+        "design_ref": "DESIGN.md section 5 / C17",
+    },
+})
+
 NOT_YET = {}
 
 
